@@ -633,7 +633,7 @@ Qed.
 (* ---------- one label, a whole run ---------- *)
 Lemma step_core_WF y l ch y' evs : step_core y l ch = (y', evs) -> WF y -> WF y'.
 Proof.
-  intros H Hwf. destruct l as [s|s sid data|s sid k|s|s sid|s|s c|c|d].
+  intros H Hwf. destruct l as [s|s sid data|s sid k|s|s sid|s|s c|c|d|c|s c].
   - rewrite step_core_open in H. eapply open_stream_WF; eauto.
   - rewrite step_core_write in H. eapply stream_write_WF; eauto.
   - rewrite step_core_read in H.
@@ -672,6 +672,13 @@ Proof.
     destruct (fire_timers 64 (set_now y (sy_now y + d)%Z) SA ch) as [[y1 ch1] e1] eqn:E1.
     destruct (fire_timers 64 y1 SB ch1) as [[y2 ch2] e2] eqn:E2. injection H as <- <-.
     eapply fire_timers_WF; [exact E2|]. eapply fire_timers_WF; [exact E1|]. exact Hwf.
+  - rewrite step_core_break in H.
+    destruct (nthN (N.to_nat c) (sy_conns y)) as [cn|] eqn:En; injection H as <- <-; [|exact Hwf].
+    apply WF_set_conns; [exact Hwf|]. eapply conns_mono_setN; [exact En|cbn; auto|cbn; auto].
+  - rewrite step_core_notice in H.
+    destruct (nthN (N.to_nat c) (sy_conns y)) as [cn|] eqn:En; [|injection H as <- <-; exact Hwf].
+    destruct (_ && _); [|injection H as <- <-; exact Hwf].
+    destruct (deplex_error y s c) as [y1 e1] eqn:Ed. injection H as <- <-. eapply deplex_error_WF; eauto.
 Qed.
 
 Lemma step_WF y l ch y' evs : step y l ch = (y', evs) -> WF y -> WF y'.
